@@ -19,6 +19,7 @@ TRANS = {
     "GeneralizedGammaDistribution": {"m": "shape", "c": "shape", "lambda_": "invscale"},
     "GumbelR": {"loc": "scale", "scale": "scale"},
     "GammaS": {"a": "shape", "loc": "scale", "scale": "scale"},
+    "ExponWeibS": {"a": "shape", "c": "shape", "loc": "scale", "scale": "scale"},
     "VonMisesDistribution": {"kappa": "shape", "mu": "none"},
 }
 GRID = {
@@ -30,6 +31,7 @@ GRID = {
     "GeneralizedGammaDistribution": [dict(m=m, c=c, lambda_=l) for m in (1.0, 2.5) for c in (1.0, 2.0) for l in (0.3, 1.5)],
     "GumbelR": [dict(loc=l, scale=s) for l in (0.5, 5.0) for s in (0.3, 2.0)],
     "GammaS": [dict(a=a, loc=0.0, scale=s) for a in (1.5, 4.0) for s in (0.3, 2.0)],
+    "ExponWeibS": [dict(a=a, c=c, loc=0.0, scale=s) for a, c in ((3.0, 1.2), (1.5, 2.5)) for s in (0.5, 2.0)],
     "VonMisesDistribution": [dict(kappa=k, mu=m) for k in (0.5, 2.0, 8.0) for m in (-1.0, 0.5)],
 }
 POSITIVE_SHAPES = {"shape", "scale", "invscale"}
@@ -119,7 +121,7 @@ def run_case(case):
     fixed = {}
     if fam == "WeibullDistribution" and fixg:
         fixed = {"gamma": th["gamma"]}
-    if fam == "GammaS":
+    if fam in ("GammaS", "ExponWeibS"):
         fixed = {"loc": 0.0}
     if case.get("fix_param"):   # one further parameter fixed at its generating value (likelihood clauses still apply)
         fixed = dict(fixed, **{case["fix_param"]: th[case["fix_param"]]})
@@ -221,7 +223,7 @@ def main(ctx):
     ctx.assumptions = ["log-likelihood evaluated with the distribution's own pdf (anchored by C05)",
                        "equivariance within optimiser tolerance: parameters within 1e-3 relative OR equal attained log-likelihood "
                        "(within 0.05) after mapping back - likelihood ridges are flat (Nelder-Mead stops on simplex size)",
-                       "ScipyDistribution carriers restricted to regular ones (gumbel_r; gamma with f_loc=0)"]
+                       "ScipyDistribution carriers restricted to regular ones (gumbel_r; gamma and the two-shape exponweib with f_loc=0)"]
     q = ctx.quick
     cases = []
     ns = (100, 1000, 5000)
@@ -237,7 +239,7 @@ def main(ctx):
                                   "scales": [0.5, 3.0]})
                     if st == "default" and seed == 1 and fam not in ("LogNormalNormFitDistribution",) and (fg or fam != "WeibullDistribution"):
                         for pn in zoo.FAMILIES[fam][1]:
-                            if pn == "gamma" or (fam == "GammaS" and pn == "loc"):
+                            if pn == "gamma" or (fam in ("GammaS", "ExponWeibS") and pn == "loc"):
                                 continue
                             cases.append({"family": fam, "theta": th, "n": n, "seed": seed, "start": st, "fix_gamma": fg,
                                           "scales": [0.5, 3.0], "fix_param": pn})
